@@ -13,7 +13,8 @@ Vocabulary of the statements (defined in `OsloProofs/Lemmas/C18.lean`):
 * `Ends rest`  : `rest` is empty or starts with a `\s` character (`parseString` parses a prefix, so
                  the theorems hold whatever follows the last operand);
 * `Operands`, `Alternatives`, `atomsSpec`, `orSpec` : several operands / `<or>` alternatives, each
-                 preceded by at least one whitespace character.
+                 preceded by at least one whitespace character;
+* `Digits`, `decText`, `decValue` : decimal text `[-]ip[.fp]` and the rational it denotes.
 Every theorem quantifies over all values `v`, all operands and all amounts of whitespace.
 
 Numbers: `pyFloat` is `float()` on text, with exact rational values (binary64 rounding is not
@@ -173,6 +174,31 @@ theorem match_numeric_general (op : Str) (o : NumOp) (hop : op ∈ Gen.unaryLits
   refine ⟨by rw [lemma_match_unary op _ hop hk v S]; rfl, ?_, ?_⟩
   · intro h; simp [numCmp, h]
   · intro n h1 h2; simp [numCmp, h1, h2]
+
+/-- The number a decimal text denotes: optional `-`, digits `ip`, optionally `.` and digits `fp`
+    (`decText`) is read by `float()` as the rational `± (ip + fp / 10^|fp|)` (`decValue`). -/
+theorem decimal_text_value (neg : Bool) (ip fp : Str) (hne : ip ≠ []) (hd : Digits ip) (hfd : Digits fp) :
+    pyFloat (decText neg ip fp) = .num (.fin (decValue neg ip fp)) :=
+  lemma_decimal_text_value neg ip fp hne hd hfd
+
+/-- All seven numeric operators on decimal texts, with no hypothesis left about `float()`: the
+    result is the comparison of the two rationals the texts denote. -/
+theorem numeric_ops_on_decimal_texts (op : Str) (o : NumOp) (hop : op ∈ Gen.unaryLits)
+    (hk : opTable.lookup op = some (.num o)) (n1 n2 : Bool) (ip1 fp1 ip2 fp2 : Str)
+    (h1 : ip1 ≠ [] ∧ Digits ip1 ∧ Digits fp1) (h2 : ip2 ≠ [] ∧ Digits ip2 ∧ Digits fp2)
+    {ws0 ws1 rest : Str} (hw0 : White ws0) (hw1 : White ws1) (hne : ws1 ≠ []) (hr : Ends rest) :
+    matchSpec (decText n1 ip1 fp1) (ws0 ++ (op ++ (ws1 ++ (decText n2 ip2 fp2 ++ rest))))
+      = .ok (match o with
+        | .ge => decide (decValue n2 ip2 fp2 ≤ decValue n1 ip1 fp1)
+        | .ne => decide (decValue n1 ip1 fp1 ≠ decValue n2 ip2 fp2)
+        | .le => decide (decValue n1 ip1 fp1 ≤ decValue n2 ip2 fp2)
+        | .lt => decide (decValue n1 ip1 fp1 < decValue n2 ip2 fp2)
+        | .eq => decide (decValue n1 ip1 fp1 = decValue n2 ip2 fp2)
+        | .gt => decide (decValue n2 ip2 fp2 < decValue n1 ip1 fp1)) := by
+  have S : UnaryShape ws0 ws1 (decText n2 ip2 fp2) rest :=
+    ⟨hw0, hw1, hne, lemma_decimal_atom n2 ip2 fp2 h2.1 h2.2.1 h2.2.2, hr⟩
+  rw [lemma_match_num op o hop hk _ S (decimal_text_value n1 ip1 fp1 h1.1 h1.2.1 h1.2.2)
+    (decimal_text_value n2 ip2 fp2 h2.1 h2.2.1 h2.2.2), lemma_numsem_fin]
 
 /-- the seven numeric operators and what they denote (`=` and `>=` are the same function) -/
 theorem numeric_operator_table :
@@ -425,6 +451,9 @@ example : UnaryShape [' ', '\t'] [' ', ' '] ['1', '0', '.', '5'] [' ', 'x'] := b
   refine ⟨?_, ?_, ?_, ⟨?_, ?_, ?_⟩, ?_⟩ <;> decide
 example : IsAtom ['a', 'e', 's'] ∧ IsAtom ['x', '>', '='] ∧ ¬ IsAtom ['>', '=', 'x'] ∧ ¬ IsAtom ['s', '<', '1'] := by
   refine ⟨⟨?_, ?_, ?_⟩, ⟨?_, ?_, ?_⟩, ?_, ?_⟩ <;> first | decide | (intro h; have := h.noop; revert this; decide)
+example : Digits ['1', '0'] ∧ Digits [] ∧ decText true ['1', '0'] ['5', '0'] = "-10.50".toList
+    ∧ decValue true ['1', '0'] ['5', '0'] = -21 / 2 ∧ decText false ['7'] [] = ['7'] := by
+  refine ⟨by decide, by decide, by decide, by decide +kernel, by decide⟩
 example : pyFloat ['5'] = .num (.fin 5) ∧ pyFloat ['-', '1', '0', '.', '5', '0'] = .num (.fin (-21 / 2))
     ∧ pyFloat ['x'] = .valueError := by decide +kernel
 example : pyLiteral "['aes', 'mmx', 3]".toList
